@@ -194,6 +194,21 @@ class ExprMixin:
         v = self.module_name(self.mod, name, node)
         if v is not None:
             return v
+        if self.spec_mode:
+            # specifications may name constants of any module that has contracts (e.g. throttle.PURGE_TIME)
+            seen = set()
+            for ct in self.reg.contracts.values():
+                if ct.path in seen or not ct.path or ct.path.startswith("<"):
+                    continue
+                seen.add(ct.path)
+                try:
+                    m = load_module(ct.path)
+                except (FileNotFoundError, SyntaxError):
+                    continue
+                if name in m.const_nodes or name in m.classes:
+                    v = self.module_name(m, name, node)
+                    if v is not None:
+                        return v
         raise Unsupported(f"unknown name {name!r}", node)
 
     def module_name(self, mod, name: str, node=None, depth=0) -> SV | None:
@@ -572,6 +587,8 @@ class ExprMixin:
             return True
         for n in nodes:
             for sub in ast.walk(n):
+                if isinstance(sub, ast.Attribute) and not (isinstance(sub.value, ast.Name) and sub.value.id == "self"):
+                    return False  # may be an attribute of None
                 if isinstance(sub, (ast.Call, ast.Subscript, ast.Await, ast.BinOp)):
                     if isinstance(sub, ast.BinOp) and not isinstance(sub.op, (ast.Div, ast.FloorDiv, ast.Mod)):
                         continue
